@@ -199,6 +199,9 @@ static iterator_t *di_iterator(bool *has_entry, sqfs_u32 *tsize)
 	it->data = verif_nd_bool("has.data") ? (sqfs_data_reader_t *)&g_data_o : NULL;
 	it->xattr = verif_nd_bool("has.xattr") ? (sqfs_xattr_reader_t *)&g_xattr_o : NULL;
 	it->xattr_idx = verif_nd_u32("xattr_idx");
+	/* since fix 2b61ea3 the iterator knows the inode number of the directory
+	 * it lists (loop detection; the chain itself is harness w13_dir_iter_loop) */
+	it->dir_inode_num = verif_nd_u32("dir.inode_number");
 	*has_entry = verif_nd_bool("has.entry");
 	*tsize = 0;
 	if (*has_entry) {
@@ -212,6 +215,7 @@ static iterator_t *di_iterator(bool *has_entry, sqfs_u32 *tsize)
 		it->dent = calloc(1, sizeof(*it->dent) + 2);
 		VERIF_ASSUME(it->inode != NULL && it->dent != NULL);
 		it->inode->base.type = type;
+		it->inode->base.inode_number = verif_nd_u32("cur.inode_number");
 		if (slink) {
 			it->inode->data.slink.target_size = ts;
 			it->inode->payload_bytes_used = ts;
